@@ -869,7 +869,10 @@ def generate(seed, n_random, coro, max_len=4, exhaustive_l1=True):
                                 pid += 1
     for i in range(n_random):
         lazy = rng.random() < 0.5
-        length = rng.choice([1, 2, 2, 3, 3, 4][:max(1, max_len + 2)])
+        if max_len <= 4:
+            length = rng.choice([1, 2, 2, 3, 3, 4][:max(1, max_len + 2)])
+        else:  # thorough tier: longer chains (same step machinery, more routing / inheritance combinations per program)
+            length = rng.choice([1, 2, 2, 3, 3, 4, 4, 5, 5, 6, 7, 8])
         length = min(length, max_len)
         p = gen_prog(rng, pid, lazy, coro, length)
         progs.append(p)
